@@ -110,7 +110,10 @@ macro_rules! ready {
 #[cfg_attr(feature = "unstable", allow(missing_docs))]
 mod codec;
 mod error;
-#[cfg_attr(feature = "verif-hooks", allow(missing_docs, missing_debug_implementations))]
+#[cfg_attr(
+    feature = "verif-hooks",
+    allow(missing_docs, missing_debug_implementations)
+)]
 mod hpack;
 
 #[cfg(not(feature = "unstable"))]
